@@ -18,6 +18,7 @@ CONSTANTS Actors,       \* set of actor ids (strings)
           EnvOps,       \* [Actors -> SUBSET {"stop","kill","drain","abort","selfkill","selfstop"}]
           KillCarriesState, \* TRUE: model the code as it is (kill in the loop reports the state)
           Once,         \* TRUE: kill/stop/drain are issued at most once per actor (bounds the model)
+          MonPairs,     \* set of <<monitor, target>> pairs the environment may establish (monitors feature)
           Undecodable   \* message numbers whose payload does not decode (cluster builds; C19)
 
 Unstarted == 0  Starting == 1  Running == 2  Upgrading == 3  Draining == 4  Stopping == 5  Stopped == 6
@@ -39,7 +40,9 @@ InitActor == [st |-> Unstarted, sig |-> "none", stp |-> "none", stpReason |-> ""
               killRet |-> FALSE, stopRet |-> FALSE, abortReq |-> "none", started |-> FALSE,
               \* monitors (history folded into flags so that the state space stays small)
               seenPre |-> FALSE, seenPost |-> FALSE, seenPStop |-> FALSE, badOrder |-> FALSE,
-              cbAfterKill |-> FALSE, hAfterStop |-> FALSE, nTerm |-> 0, nStarted |-> 0, badEvt |-> FALSE]
+              cbAfterKill |-> FALSE, hAfterStop |-> FALSE, nTerm |-> 0, nStarted |-> 0, badEvt |-> FALSE,
+              \* monitors of this actor; monitors that were already sent a terminal event about it
+              mons |-> {}, monTerm |-> {}, dupMon |-> FALSE]
 
 Init == /\ ac = [a \in Actors |-> InitActor]
         /\ nsent = [a \in Actors |-> 0] /\ ninj = [a \in Actors |-> 0]
@@ -85,6 +88,28 @@ Drain(a) ==
                           !.marker = TRUE,
                           !.mq = IF ~ac[a].marker /\ ac[a].rxOpen THEN Append(@, DrainItem) ELSE @])
   /\ UNCHANGED <<nsent, ninj>>
+\* ActorCell::monitor / unmonitor: `m` receives stripped copies of `a`'s lifecycle events
+Monitor(m, a) ==
+  /\ m # a /\ ac[m].pc # "none" /\ ac[a].pc # "none"
+  /\ Set(a, [ac[a] EXCEPT !.mons = @ \cup {m}])
+  /\ UNCHANGED <<nsent, ninj>>
+Unmonitor(m, a) ==
+  /\ m # a /\ ac[m].pc # "none" /\ ac[a].pc # "none"
+  /\ Set(a, [ac[a] EXCEPT !.mons = @ \ {m}])
+  /\ UNCHANGED <<nsent, ninj>>
+\* notify_supervisor: monitors first (copy without state), then the supervisor; a monitor whose
+\* port is closed is forgotten. `f` is the actor map after the step's other updates, `p` the supervisor.
+IsTerminal(evt) == evt.ek \in {"terminated", "failed"}
+Deliver(f, a, p, evt) ==
+  LET ms == ac[a].mons
+      live(x) == ac[x].rxOpen /\ x # a
+      copy == [evt EXCEPT !.hs = FALSE]
+  IN [x \in Actors |->
+        IF x = a THEN [f[a] EXCEPT !.mons = {m \in ms : live(m)},
+                                   !.monTerm = IF IsTerminal(evt) THEN @ \cup {m \in ms : live(m)} ELSE @,
+                                   !.dupMon = @ \/ (IsTerminal(evt) /\ \E m \in ms : live(m) /\ m \in f[a].monTerm)]
+        ELSE [f[x] EXCEPT !.supq = @ \o (IF x \in ms /\ live(x) THEN <<copy>> ELSE <<>>)
+                                      \o (IF x = p /\ live(x) THEN <<evt>> ELSE <<>>)]]
 EnvKill(a) == "kill" \in EnvOps[a] /\ Kill(a)
 EnvStop(a) == "stop" \in EnvOps[a] /\ Stop(a, "r")
 EnvDrain(a) == "drain" \in EnvOps[a] /\ Drain(a)
@@ -116,14 +141,13 @@ Cleanup(a) ==
   /\ ac[a].pc = "exiting"
   /\ LET evt == ac[a].pend
          p == ac[a].par
-         deliver == evt.ek # "none" /\ p # NoA /\ ac[p].rxOpen
          f == [ac[a] EXCEPT !.st = Stopped, !.pc = "dead", !.rxOpen = FALSE, !.mq = <<>>, !.supq = <<>>,
                             !.sig = IF @ = "sent" THEN "taken" ELSE @, !.stp = IF @ = "sent" THEN "taken" ELSE @,
                             !.par = NoA, !.pend = NoEvt,
                             !.spawnRes = IF @ = "none" THEN "err" ELSE @,
                             !.nTerm = IF evt.ek # "none" /\ @ < 2 THEN @ + 1 ELSE @]
          swept == Sweep(a, f)
-     IN ac' = [x \in Actors |-> IF x = p /\ deliver THEN [swept[x] EXCEPT !.supq = Append(@, evt)] ELSE swept[x]]
+     IN ac' = IF evt.ek # "none" THEN Deliver(swept, a, p, evt) ELSE swept
   /\ UNCHANGED <<nsent, ninj>>
 
 \* event classes (C04)
@@ -208,13 +232,9 @@ PostStartBegin(a) ==
 PostStartEnd(a, o) ==
   /\ ac[a].pc = "post" /\ ac[a].cb.k = "post_start" /\ ~ac[a].cb.susp /\ o \in Outcomes
   /\ IF o = "ok"
-       THEN LET p == ac[a].par
-                deliver == p # NoA /\ ac[p].rxOpen
-            IN ac' = [x \in Actors |->
-                     IF x = a THEN [ac[a] EXCEPT !.cb = NoCb, !.pc = "idle", !.st = Max(@, Running), !.started = TRUE,
-                                                 !.nStarted = IF @ < 2 THEN @ + 1 ELSE @, !.badEvt = @ \/ ac[a].nTerm > 0]
-                     ELSE IF x = p /\ deliver THEN [ac[x] EXCEPT !.supq = Append(@, Evt("started", a, FALSE, ""))]
-                     ELSE ac[x]]
+       THEN LET f == [ac EXCEPT ![a] = [ac[a] EXCEPT !.cb = NoCb, !.pc = "idle", !.st = Max(@, Running), !.started = TRUE,
+                                                 !.nStarted = IF @ < 2 THEN @ + 1 ELSE @, !.badEvt = @ \/ ac[a].nTerm > 0]]
+            IN ac' = Deliver(f, a, ac[a].par, Evt("started", a, FALSE, ""))
        ELSE Set(a, Exiting(ac[a], o, o, EvtFailed(a, o)))
   /\ UNCHANGED <<nsent, ninj>>
 
@@ -268,7 +288,8 @@ ActorStep(a) ==
   \/ SigHandled(a) \/ PostStartBegin(a) \/ ListenStop(a) \/ TakeSup(a) \/ TakeMsg(a) \/ TakeDrain(a)
   \/ EnterSup(a) \/ EnterMsg(a) \/ DropUndecodable(a) \/ PostStopBegin(a) \/ AbortDrop(a) \/ Cleanup(a)
   \/ \E o \in Outcomes : PreEnd(a, o) \/ PostStartEnd(a, o) \/ HandlerEnd(a, o) \/ PostStopEnd(a, o)
-EnvStep(a) == Send(a) \/ Inject(a) \/ EnvKill(a) \/ EnvStop(a) \/ EnvDrain(a) \/ EnvAbort(a)
+EnvStep(a) == \/ Send(a) \/ Inject(a) \/ EnvKill(a) \/ EnvStop(a) \/ EnvDrain(a) \/ EnvAbort(a)
+              \/ \E m \in Actors : <<m, a>> \in MonPairs /\ (Monitor(m, a) \/ Unmonitor(m, a))
 
 Next == \E a \in Actors : ActorStep(a) \/ EnvStep(a)
 Spec == Init /\ [][Next]_vars
@@ -291,7 +312,7 @@ KillWins == \A a \in Actors : (ac[a].sig = "sent" /\ ac[a].cb.susp) => ~ENABLED 
 SupBeforeMsg == \A a \in Actors : ac[a].supq # <<>> => ~ENABLED TakeMsg(a)
 
 \* C04: at most one terminal event; started once and before it; none for an actor that never ran
-OneTerminal == \A a \in Actors : ac[a].nTerm <= 1
+OneTerminal == \A a \in Actors : ac[a].nTerm <= 1 /\ ~ac[a].dupMon
 TerminalIffRan == \A a \in Actors : ac[a].pc = "dead" => ((ac[a].nTerm = 1) = (ac[a].spawnRes = "ok"))
 StartedOrder == \A a \in Actors : ac[a].nStarted <= 1 /\ ~ac[a].badEvt /\ (ac[a].nStarted = 1 => ac[a].started)
 \* C08 / C05 facets visible here: a dead actor is clean
